@@ -78,12 +78,15 @@ def _mbt(ctx):
             ctx.inconclusive("C14 replay harness (%s) failed:\n%s" % (mode, out[-3000:]))
         if summ[0]["harness_failures"]:
             bad = [x for x in recs if x.get("k") == "mismatch" and x["sig"].get("kind") == "harness"]
-            ctx.inconclusive("C14 replay harness (%s) could not drive the broker: %s" % (mode, bad[0]["what"] if bad else "?"))
+            if summ[0]["harness_failures"] > max(1, len(behs) // 100) and not ctx.violations:
+                ctx.inconclusive("C14 replay harness (%s) could not drive the broker in %d behaviours: %s" % (
+                    mode, summ[0]["harness_failures"], bad[0]["what"] if bad else "?"))
+            ctx.notes.append("%d behaviours (%s binding) left out, harness could not drive the broker" % (summ[0]["harness_failures"], mode))
         ctx.evals(summ[0]["probes"])
         ctx.traces(len(behs))
         ctx.log("replayed %d behaviours (%d steps, %d lookups) on the real code, binding %s: %d mismatches" % (
             len(behs), summ[0]["steps"], summ[0]["probes"], mode, summ[0]["mismatches"]))
-        for m in [x for x in recs if x.get("k") == "mismatch"]:
+        for m in [x for x in recs if x.get("k") == "mismatch" and x["sig"].get("kind") != "harness"]:
             sig = dict(m["sig"])
             sig["mode"] = mode
             ctx.violation(sig, "real topic routing diverges from the contract (%s binding), step %d: %s" % (mode, m["step"], m["what"]), m)
@@ -108,7 +111,16 @@ def _tv(ctx):
             ctx.inconclusive("C14 trace harness (%s) failed:\n%s" % (mode, out[-3000:]))
         hf = [e for e in ev if e.get("ev") in ("harness-failure", "probe-error")]
         if hf:
-            ctx.inconclusive("C14 trace harness (%s) could not drive the system: %s" % (mode, hf[0]))
+            # a history the harness could not complete (a broker that did not answer in 20s on a busy machine) is left out
+            from props._mqtt import split_traces
+            keep = []
+            for a, b in split_traces(ev):
+                if not any(e.get("ev") in ("harness-failure", "probe-error") for e in ev[a:b]):
+                    keep += ev[a:b]
+            if len(hf) > max(1, n // 10) and not ctx.violations:
+                ctx.inconclusive("C14 trace harness (%s) could not drive the system in %d of %d histories: %s" % (mode, len(hf), n, hf[0]))
+            ctx.notes.append("%d of %d histories (%s binding) left out, harness could not drive the system: %s" % (len(hf), n, mode, short(hf[0], 200)))
+            ev = keep
         ctx.evals(sum(1 for e in ev if e["ev"] == "probe"))
 
         def on_reject(seg, whole, tr, mode=mode, multifail=multifail):
